@@ -134,6 +134,8 @@ struct SideResult {
     contexts: Vec<(u8, String, String)>,
     local_max: u32,
     peer_max: u32,
+    /// user_variables() of the association as (sub-item type, content)
+    user_vars: Vec<(u8, Vec<u8>)>,
     /// per scripted send: (PDU length attempted, Ok?, too-long error?)
     sends: Vec<(u32, bool, bool)>,
     received_pdata: usize,
@@ -175,6 +177,7 @@ macro_rules! after_establish_sync {
             g.contexts = a.presentation_contexts().iter().filter(|p| c28_reason(&p.reason) == 0).map(|p| (p.id, p.abstract_syntax.clone(), p.transfer_syntax.clone())).collect();
             g.local_max = a.local_max_pdu_length();
             g.peer_max = a.peer_max_pdu_length();
+            g.user_vars = crate::convert::uservars_subs(a.user_variables());
         }
         let peer_max = a.peer_max_pdu_length();
         for act in $script.iter() {
@@ -244,6 +247,7 @@ macro_rules! after_establish_async {
             g.contexts = a.presentation_contexts().iter().filter(|p| c28_reason(&p.reason) == 0).map(|p| (p.id, p.abstract_syntax.clone(), p.transfer_syntax.clone())).collect();
             g.local_max = a.local_max_pdu_length();
             g.peer_max = a.peer_max_pdu_length();
+            g.user_vars = crate::convert::uservars_subs(a.user_variables());
         }
         let peer_max = a.peer_max_pdu_length();
         for act in $script.iter() {
@@ -505,6 +509,12 @@ fn run(cfgi: usize, w: &mut Tape, env: &EnvRef) -> RunResult {
             // each other's maximum
             check!(r.peer_max as u64 == eff_max(acc.max_pdu), "max-pdu", "c29:requestor-view-of-acceptor-max", "requestor thinks the acceptor admits {} but it advertised {}", r.peer_max, acc.max_pdu);
             check!(a.peer_max as u64 == eff_max(cli.max_pdu), "max-pdu", "c29:acceptor-view-of-requestor-max", "acceptor thinks the requestor admits {} but it advertised {}", a.peer_max, cli.max_pdu);
+            // the requestor's user variables are the user information of the A-ASSOCIATE-AC as it went over the wire
+            if let Some(Ok(RPdu::AssocAc(ac))) = wire_pdus(&end.eps[conn.a]).0.first() {
+                let wire: Vec<(u8, Vec<u8>)> = ac.items.iter().filter_map(|i| if let RItem::UserInfo(subs) = i { Some(subs.iter().map(|s| (s.ty, s.data.clone())).collect::<Vec<_>>()) } else { None }).flatten().collect();
+                check!(r.user_vars == wire, "agreement", "c29:requestor-user-variables", "the requestor's user_variables() {:?} differ from the user information of the A-ASSOCIATE-AC on the wire {:?}", r.user_vars, wire);
+                env.probe("requestor-user-variables");
+            }
             // each side's own maximum is the configured one (documented clamp to the largest admissible value)
             let clamp = |v: u32| v.min((u32::MAX & !1) - 6);
             check!(r.local_max == clamp(cli.max_pdu), "max-pdu", "c29:requestor-local-max", "requestor configured with maximum {} holds {} as its own maximum", cli.max_pdu, r.local_max);
